@@ -84,7 +84,7 @@ func encItems(items []xitem) []int64 {
 				if g.vk != 0 {
 					out = encBytesStr(out, g.w1)
 					out = encBytesStr(out, g.w2)
-					if g.vk == 2 {
+					if g.vk >= 2 {
 						out = append(out, int64(g.q))
 					}
 					out = encBytesStr(out, g.val)
@@ -188,7 +188,7 @@ func decItems(a []int64) ([]xitem, bool) {
 				g.vk = int(r.next())
 				if g.vk != 0 {
 					g.w1, g.w2 = r.str(), r.str()
-					if g.vk == 2 {
+					if g.vk == 2 || g.vk == 3 {
 						g.q = byte(r.next())
 					} else {
 						g.vk = 1
@@ -428,23 +428,35 @@ func c11XmlrefShrink(c Case) []Case {
 
 var c11XmlrefModel = &Model{Name: "xmlref", Gen: c11XmlrefGen, Impl: c11XmlrefImpl, Shrink: c11XmlrefShrink, Class: xmlspecClass}
 
-// c11GenTagItems: a general tag opener (free-form PI or tag content: bare names, unquoted values, '/' and '?'
-// inside names, empty names before '=', pieces glued to a closing quote, any closer) followed by character
-// data and an element.  Built so that the side conditions of the Coq grammar hold by construction.
-func c11GenTagItems(r *Rng) []xitem {
+// c11GenTagItem: a general tag opener (free-form PI or tag content: bare names, unquoted values, '/' and '?'
+// inside names, empty names before '=', pieces glued to a closing quote; in a PI also '>' and "/>" inside
+// names and only "?>" as closer).  Built so that the side conditions of the Coq grammar hold by construction.
+// xmlSafe: content that is also what XML 1.0 takes as the same PI (no "?>" inside quoted values).
+func c11GenTagItem(r *Rng, pi bool, xmlSafe bool) xitem {
 	nameChars := []string{"a", "b", "x", "é", "-", ":", "$", ";", "(", ")", "&", "<", "\"", "'", "/", "?", "[", "]"}
+	firsts := []string{"a", "b", "x", "echo", "$v", "é", "/", "?", "'", "\""}
+	if pi {
+		nameChars = append(nameChars, ">", "/>", ">")
+		firsts = append(firsts, ">", "/>")
+	}
+	fixEnd := func(s string) string {
+		if c := s[len(s)-1]; c == '?' || (!pi && c == '/') {
+			s += "z" // '?' (and '/' in a start tag) never last: the byte after may be '>'
+		}
+		return s
+	}
 	genName := func(allowEmpty bool) string {
 		if allowEmpty && r.Chance(1, 6) {
 			return ""
 		}
-		s := r.PickStr([]string{"a", "b", "x", "echo", "$v", "é", "/", "?", "'", "\""})
+		s := r.PickStr(firsts)
 		for k := r.Intn(3); k > 0; k-- {
 			s += r.PickStr(nameChars)
 		}
-		if s[len(s)-1] == '/' || s[len(s)-1] == '?' {
-			s += "z" // '/' and '?' never last: the byte after the name may be '>'
+		if pi {
+			s = strings.ReplaceAll(s, "?>", "?_>")
 		}
-		return s
+		return fixEnd(s)
 	}
 	ws1 := func() string { return r.PickStr([]string{" ", " ", "\t", "\n", "\r\n", "  "}) }
 	ws0 := func() string {
@@ -453,7 +465,13 @@ func c11GenTagItems(r *Rng) []xitem {
 		}
 		return ws1()
 	}
-	it := xitem{kind: itTag, pi: r.Chance(2, 3), s: genXMLName(r), closer: 6 + r.Intn(3)}
+	it := xitem{kind: itTag, pi: pi, s: genXMLName(r), closer: 6 + r.Intn(3)}
+	if pi {
+		it.closer = 8
+		if strings.EqualFold(it.s, "xml") {
+			it.s = "xmlx"
+		}
+	}
 	n := r.Intn(4)
 	prevQuoted := false
 	for i := 0; i < n; i++ {
@@ -462,9 +480,7 @@ func c11GenTagItems(r *Rng) []xitem {
 			g.lead = ""
 		}
 		g.name = genName(g.vk != 0)
-		if g.name == "" {
-			g.w1 = ""
-		} else if g.vk != 0 {
+		if g.name != "" && g.vk != 0 {
 			g.w1 = ws0()
 		}
 		if g.vk != 0 {
@@ -472,10 +488,11 @@ func c11GenTagItems(r *Rng) []xitem {
 		}
 		switch g.vk {
 		case 1:
-			g.val = r.PickStr([]string{"v", "1", "x=y", "a/b", "é", "$", "c'd", "e\"f", "?z", "/z"})
-			if c := g.val[len(g.val)-1]; c == '/' || c == '?' {
-				g.val += "z"
+			g.val = r.PickStr([]string{"v", "1", "x=y", "a/b", "é", "$", "c'd", "e\"f", "?z", "/z", ">", "a>b"})
+			if !pi {
+				g.val = strings.ReplaceAll(g.val, ">", "g")
 			}
+			g.val = fixEnd(g.val)
 		case 2:
 			g.q = '"'
 			if r.Bool() {
@@ -483,6 +500,9 @@ func c11GenTagItems(r *Rng) []xitem {
 			}
 			g.val = strings.ReplaceAll(r.PickStr(c11ValChunks)+r.PickStr(c11ValChunks), string(g.q), "")
 			g.val = strings.ReplaceAll(g.val, "\r\n", "\r")
+			if pi {
+				g.val = strings.ReplaceAll(g.val, "?>", "? >") // the instruction would end there
+			}
 		}
 		// a bare name must not be followed by '=' (it would be its value): the next piece then has a name
 		if i > 0 && it.gpieces[i-1].vk == 0 && g.name == "" {
@@ -491,13 +511,32 @@ func c11GenTagItems(r *Rng) []xitem {
 				g.w1 = ws0()
 			}
 		}
-		if g.lead == "" && g.name == "" && false {
-			g.lead = " "
-		}
 		prevQuoted = g.vk == 2
 		it.gpieces = append(it.gpieces, g)
 	}
 	it.ws = ws0()
+	if pi && r.Chance(1, 4) { // the last piece is a quoted value cut by the instruction's ?>
+		g := c11Gattr{lead: ws1(), name: genName(true), vk: 3, q: '"', w2: ws0()}
+		if len(it.gpieces) > 0 && it.gpieces[len(it.gpieces)-1].vk == 0 && g.name == "" {
+			g.name = "n"
+		}
+		if g.name != "" {
+			g.w1 = ws0()
+		}
+		if r.Bool() {
+			g.q = '\''
+		}
+		g.val = strings.ReplaceAll(r.PickStr(c11ValChunks)+r.PickStr([]string{"", "b", "?", " ", "x>"}), string(g.q), "")
+		g.val = strings.ReplaceAll(strings.ReplaceAll(g.val, "\r\n", "\r"), "?>", "? >")
+		it.gpieces = append(it.gpieces, g)
+		it.ws = ""
+	}
+	return it
+}
+
+// c11GenTagItems: a general opener followed by character data and an element.
+func c11GenTagItems(r *Rng) []xitem {
+	it := c11GenTagItem(r, r.Chance(2, 3), false)
 	items := []xitem{it}
 	if r.Bool() {
 		items = append(items, xitem{kind: itText, s: r.PickStr([]string{"b?>", "t", " x ?> ", "?>"})})
